@@ -32,7 +32,10 @@ class MachineryError(Exception):
 
 
 def enc(s):
-    """text -> list of code points (the specification's representation of text)"""
+    """text -> list of code points (the specification's representation of text).  Something that is not text where text belongs (a key that is
+    None, a number) is an OBSERVATION, not a failure of the machinery: it is rendered as a marker text no expectation contains."""
+    if not isinstance(s, str):
+        s = "<not text: %r>" % (s,)
     return [ord(c) for c in s]
 
 
